@@ -1,4 +1,5 @@
-(* C16 — quadratic symmetries span the commutant and the twirl projects onto it.  PARTIAL.
+(* C16 — quadratic symmetries span the commutant and the twirl projects onto it.  Proved for every n (exact
+   Gaussian-integer / rational arithmetic; the source's float normalisation is not modelled).
    Model/Quadratic.v: Q_{C,L} = sum_{S in C} phase(L,S) S (x) (L.S) for components C of the commutator graph and
    commutants L; the twirl with exact rational coefficients.  Proved for every n: symmetries built from different
    components or different linear symmetries have disjoint Pauli supports and are therefore orthogonal in the trace
@@ -7,9 +8,10 @@
    positions of the list) are trace-orthogonal and each has squared norm |Q| 4^n; the twirl fixes every member
    exactly, satisfies <Q, twirl m> = <Q, m> for every member Q (so it is idempotent and its residual is orthogonal
    to every symmetry) and its output commutes with every g(x)1 + 1(x)g.  Rational coefficients are
-   (numerator, denominator, string); `numer D` multiplies out the common denominator D.  Not proved: completeness (basis theorem of arXiv:2502.16404; validated per input by a rank computation, n <= 2), and the
-   projector laws of the twirl (checked densely per input). *)
-From PauLie Require Import Pauli Matrix Linear LinearT Graph Quadratic QuadraticT QuadInvT QuadOrthT TwirlT.
+   (numerator, denominator, string); `numer D` multiplies out the common denominator D.  Completeness: every combination that commutes with every g(x)1 + 1(x)g is
+   fixed by the twirl, i.e. is a combination of the symmetries (Theory/CompleteT.v); with orthogonality the symmetries are
+   a basis of the commutant, so their number is its dimension. *)
+From PauLie Require Import Pauli Matrix Linear LinearT Graph Quadratic QuadraticT QuadInvT QuadOrthT TwirlT CompleteT.
 
 Theorem C16_disjoint_supports : forall n C C' L L',
   (forall s, In s C -> length s = n) -> (forall s, In s C' -> length s = n) -> length L = n -> length L' = n ->
@@ -73,6 +75,26 @@ Theorem C16_twirl_invariant : forall n G, (forall h, In h G -> length h = n) -> 
   Comm n (gen2 n g) (numer (common_den (full_basis n G)) (twirl n G m)).
 Proof. exact model_twirl_invariant. Qed.
 Print Assumptions C16_twirl_invariant.
+
+(* completeness: whatever commutes with every g (x) 1 + 1 (x) g is reproduced by the twirl, coefficient by coefficient
+   (D = the cleared denominator), so it lies in the span of the quadratic symmetries; and an invariant combination
+   orthogonal to every symmetry is zero *)
+Theorem C16_complete : forall n G m, (forall h, In h G -> length h = n) -> G <> [] -> all_n (2 * n) m ->
+  (forall g, In g G -> Comm n (gen2 n g) m) ->
+  forall T, length T = (2 * n)%nat ->
+  coef (numer (common_den (full_basis n G)) (twirl n G m)) T = gmul (nat_gi (common_den (full_basis n G))) (coef m T).
+Proof. exact twirl_fixes_invariants. Qed.
+Print Assumptions C16_complete.
+Theorem C16_complete_matrix : forall n G m, (forall h, In h G -> length h = n) -> G <> [] -> all_n (2 * n) m ->
+  (forall g, In g G -> Comm n (gen2 n g) m) ->
+  meq (2 * n) (denote (numer (common_den (full_basis n G)) (twirl n G m))) (mscale (nat_gi (common_den (full_basis n G))) (denote m)).
+Proof. exact twirl_fixes_invariants_matrix. Qed.
+Print Assumptions C16_complete_matrix.
+Theorem C16_invariant_orthogonal_zero : forall n G r, (forall h, In h G -> length h = n) -> G <> [] -> all_n (2 * n) r ->
+  (forall g, In g G -> Comm n (gen2 n g) r) -> (forall q, In q (full_basis n G) -> proj_num q r = g0) ->
+  forall T, length T = (2 * n)%nat -> coef r T = g0.
+Proof. exact invariant_orthogonal_zero. Qed.
+Print Assumptions C16_invariant_orthogonal_zero.
 
 Example C16_example :
   full_basis 1 [[PX]; [PZ]] = [[((1,0), [PI;PI])]; [((1,0), [PZ;PZ]); ((1,0), [PY;PY]); ((1,0), [PX;PX])]]%Z /\
